@@ -1253,7 +1253,40 @@ func Access(name string) {
 		if !e.aborting && !e.ended {
 			e.accesses[name]++
 		}
+		if pre, _ := e.Data["yieldAt"].(string); pre != "" && strings.HasPrefix(name, pre) && !e.aborting && !e.ended {
+			// the scenario asked for threads to be run last at these accesses: wait until no other thread can
+			// run (threads waiting here themselves do not count), then go on
+			self := e.cur
+			point("access-yield", name, func() bool {
+				for _, t := range e.threads {
+					if t == self || t.exited || t.idle {
+						continue
+					}
+					if t.kind == "access-yield" && t.ready != nil {
+						if t.seq < self.seq {
+							return false // among the threads waiting here: first come, first served
+						}
+						continue
+					}
+					if t.isReady() {
+						return false
+					}
+				}
+				return true
+			})
+			return
+		}
 		point("access", name, nil)
+	}
+}
+
+// YieldAt makes every thread that arrives at an access point whose name starts with prefix wait there until no
+// other thread can run (it is "run last"). A read-compute-write sequence over unsynchronised state is thereby
+// stretched over everything the other threads do meanwhile - deterministically, without spending preemptions. If
+// the sequence is protected by a lock the others simply block and the thread goes on. "" switches it off.
+func YieldAt(prefix string) {
+	if e := E; e != nil {
+		e.Data["yieldAt"] = prefix
 	}
 }
 
